@@ -164,12 +164,13 @@ CHECKS["C15"] = dict(
          "create_number, create_symbol, create_atom and the n-fold prefix never end in an internal error on any theory term; "
          "create_formula does not on any term gringo's parser can produce with the #theory tel body table (gringoOK: operator names "
          "only with table arities) — the final assert of the operator chain, Previous(None,…) of unary sequence operators and "
-         "args[-1] on [] are unreachable; the test part of path expressions; __get_param for every name and flag combination; the "
-         "loop and option parsers (C08).  All are total Lean definitions (no input loops).  PARTIAL: create_path / "
-         "create_dynamic_formula / head create_formula / TheoryParser.parse are modelled with their failure branches and compared "
-         "with the implementation incl. error classes on near-valid inputs, but without no-internal-error theorems; the AST "
-         "rewriting is covered by the near-valid search on the real code (in-process exception types, time limit, command line: "
-         "PANIC / non-RuntimeError traceback / status 0 on rejection).",
+         "args[-1] on [] are unreachable; likewise create_path, create_dynamic_formula and translate_elements under the #theory del "
+         "table, and the head create_formula; TheoryParser.parse on every non-empty unparsed term of the shape clingo's grammar "
+         "produces with any operator table (stack-shape invariant: no underflow, no missing table entry, loops terminate); "
+         "__get_param for every name and flag combination; the loop and option parsers (C08).  All are total Lean definitions (no "
+         "input loops).  PARTIAL: the AST rewriting of transformers/ beyond __get_param / TheoryParser and the step-wise translate "
+         "methods of theory/ are covered by the error-class correspondence and the near-valid search on the real code (in-process "
+         "exception types, time limit, command line: PANIC / non-RuntimeError traceback / status 0 on rejection).",
     design="§6 C15", technique="Lean 4 proof (internal-error branches unreachable under the parser's arity contract; partial) + error-class correspondence + near-valid grammar search")
 
 CHECKS["C14"] = dict(
